@@ -36,7 +36,7 @@ WaveletTreeNoptrs::WaveletTreeNoptrs(const Array &a, BitSequenceBuilder *bmb,
   for (size_t i = 0; i < n; i++)
     symbols[i] = am->map(a[i]);
   max_v = am->map(a.getMax());
-  height = bits(max_v);
+  height = max(1u, bits(max_v)); // a sequence of zeros still needs one level
   uint *occurrences = new uint[max_v + 1];
   for (uint i = 0; i <= max_v; i++)
     occurrences[i] = 0;
@@ -101,7 +101,7 @@ WaveletTreeNoptrs::WaveletTreeNoptrs(uint *symbols, size_t n,
   for (uint i = 0; i < n; i++)
     symbols[i] = am->map(symbols[i]);
   max_v = max_value(symbols, n);
-  height = bits(max_v);
+  height = max(1u, bits(max_v)); // a sequence of zeros still needs one level
   uint *occurrences = new uint[max_v + 1];
   for (uint i = 0; i <= max_v; i++)
     occurrences[i] = 0;
@@ -174,7 +174,7 @@ WaveletTreeNoptrs::WaveletTreeNoptrs(uint *symbols, size_t n, uint width,
   for (uint i = 0; i < n; i++)
     set_field(symbols, width, i, am->map(get_field(symbols, width, i)));
   max_v = max_value(symbols, width, n);
-  height = bits(max_v);
+  height = max(1u, bits(max_v)); // a sequence of zeros still needs one level
   uint *occurrences = new uint[max_v + 1];
   for (uint i = 0; i <= max_v; i++)
     occurrences[i] = 0;
